@@ -1,7 +1,12 @@
 """C11 — episodes end exactly at the configured time limit / within the structural horizon.
-Theorems: lean/JumanjiModel/Props/C11.lean (wiring + comparison generated from the source; counting argument) and the
-per-environment progress theorems.  Search: for every class that takes a time limit, time_limit in {1,2,3,7,...} (and None where
-allowed): index of the first LAST over many episodes; structural horizons through the adapters (envprops._c11)."""
+Theorems: lean/JumanjiModel/Props/C11.lean (wiring + comparison generated from the source; the episode-level counting theorems
+ends_by_limit / ends_exactly_at_limit over an abstract step system, Core/EpisodeLemmas.lean, whose hypothesis is stated with the comparison
+RECORDED in Gen/TimeLimit.lean), their instances for the L1 models in Props/EpisodeInstances.lean (<env>_rollout_ends_by_limit,
+<env>_rollout_ends_exactly_at_limit: index of the first LAST timestep of the iterated L1 step, `Ep.firstLastTS (Ep.rollout step s as)`) and
+the per-environment progress theorems.  Search: the SAME quantity on the real environments — for every class that takes a time limit,
+time_limit in {1,2,3,7,...} (and None where allowed): 1-based index of the first LAST timestep over many episodes (mask-following survivor
+policy and random play) compared with the limit (never later: runs_past_limit; reached exactly by some survivor for small limits:
+never_reaches_limit); structural horizons through the adapters (envprops._c11)."""
 from __future__ import annotations
 
 import numpy as np
